@@ -1089,3 +1089,174 @@ PROPS['C09'] = dict(items=items_C09, custom_replay=replay_C09,
                             'thorough': {'programs': 'held<=2, N=3 <=4 edges, named N=4', 'layouts': '10 rank orders + ForkLayout on shapes with <=4 edges'}},
                     outside=OUTSIDE, vacuity=lambda results, extra: None if sum(r.get('oracle_queries', 0) + r.get('paths', 0) for r in results) > 0 else 'nothing compared',
                     replay_oracles=[])
+
+
+# ------------------------------------------------------------------ C07 differential against the std reference model
+def _c07_post_path(sc, out, res):
+    """run the std model under this path's condition; every std branch that is jointly satisfiable must give the same trace"""
+    import z3
+    from stdmodel import Std
+    from values import is_sym, bv
+    if out[0] not in ('ok', 'violation', 'ub', 'panic', 'abort'):
+        return
+    E = sc.E
+    impl = [(i, t) for i, t in enumerate(sc.trace) if t[0] in ('dtor', 'ret', 'tclone')]
+    pending = [[]]
+    nstd = 0
+    while pending:
+        dec = pending.pop()
+        m = Std(sc.script, lambda c: E.check(c), dec)
+        m.symvars = dict(sc.symvars)
+        try:
+            m.run()
+        except ValueError as e:
+            res['error'] = str(e)
+            return
+        pending.extend(m.alternatives)
+        nstd += 1
+        asm = z3.And(*m.asm) if m.asm else z3.BoolVal(True)
+        if not E.check(asm):
+            continue
+        # compare event by event
+        st = m.trace
+        mismatch = None
+        extra = None
+        if out[0] != 'ok':
+            mismatch = 'the implementation ends in %s (%s) where std completes the program' % (out[0], str(out[1])[:120])
+        else:
+            if len(st) != len(impl):
+                mismatch = 'different number of observable events: implementation %d, std %d' % (len(impl), len(st))
+            for (i, a), b in zip(impl, st):
+                if mismatch:
+                    break
+                if a[0] != b[0] or (a[0] != 'ret' and a[1] != b[1]) or (a[0] == 'ret' and a[1] != b[1]):
+                    mismatch = 'event %r where std has %r' % (a, b)
+                    break
+                if a[0] == 'ret':
+                    va = sc.rawvals.get(i, a[2])
+                    vb = b[2]
+                    if is_sym(va) or is_sym(vb):
+                        neq = bv(va) != bv(vb)
+                        if E.check(z3.And(asm, neq)):
+                            mismatch = '%s returns %s where std returns %s' % (a[1], va, vb)
+                            extra = z3.And(asm, neq)
+                    elif va != vb:
+                        mismatch = '%s returns %r where std returns %r' % (a[1], va, vb)
+        if mismatch:
+            _viol(res, sc, 'C07', 'differs-from-std', mismatch, extra if extra is not None else asm)
+            return
+    res['extra']['std_branches'] = res['extra'].get('std_branches', 0) + nstd
+    res['oracle_queries'] += nstd
+
+
+def items_C07(tier, seed, P):
+    items = []
+    N = lambda i, h: {'op': 'new', 'obj': i, 'as': h}
+    # base states (no adoption anywhere)
+    bases = {
+        'one': [N(0, 'a'), {'op': 'extras', 'h': 'a', 'n': 'e0'}, {'op': 'wextras', 'h': 'a', 'n': 'w0'}, {'op': 'downgrade', 'h': 'a', 'as': 'wa'}],
+        'owner-holds-target': [N(0, 'a'), N(1, 'b'), {'op': 'extras', 'h': 'a', 'n': 'e0'}, {'op': 'extras', 'h': 'b', 'n': 'e1'},
+                               {'op': 'clone', 'h': 'b', 'as': 't0'}, {'op': 'store', 'via': 'a', 'h': 't0'},
+                               {'op': 'downgrade', 'h': 'a', 'as': 'tw'}, {'op': 'store_weak', 'via': 'b', 'w': 'tw'}, {'op': 'downgrade', 'h': 'a', 'as': 'wa'}],
+        'leaking-cycle': [N(0, 'a'), N(1, 'b'), {'op': 'wextras', 'h': 'a', 'n': 'w0'},
+                          {'op': 'clone', 'h': 'b', 'as': 't0'}, {'op': 'store', 'via': 'a', 'h': 't0'},
+                          {'op': 'clone', 'h': 'a', 'as': 't1'}, {'op': 'store', 'via': 'b', 'h': 't1'}, {'op': 'downgrade', 'h': 'a', 'as': 'wa'}],
+        'unique': [N(0, 'a'), {'op': 'downgrade', 'h': 'a', 'as': 'wa'}, {'op': 'wdrop', 'w': 'wa'}, {'op': 'weak_new', 'as': 'wa'}],
+    }
+    obs = [{'op': 'strong_count', 'h': 'a'}, {'op': 'weak_count', 'h': 'a'}]
+    wobs = [{'op': 'w_strong_count', 'w': 'wa'}, {'op': 'w_weak_count', 'w': 'wa'}]
+    # calls on handle `a` (still held afterwards unless noted); each returns (ops, a_still_held)
+    calls = {
+        'clone': ([{'op': 'clone', 'h': 'a', 'as': 'c'}], True),
+        'clone-drop': ([{'op': 'clone', 'h': 'a', 'as': 'c'}, {'op': 'drop', 'h': 'c'}], True),
+        'drop': ([{'op': 'drop', 'h': 'a'}], False),
+        'drop_extra': ([{'op': 'drop_extra', 'obj': 0}], True),
+        'downgrade': ([{'op': 'downgrade', 'h': 'a', 'as': 'w2'}], True),
+        'upgrade': ([{'op': 'upgrade', 'w': 'wa', 'as': 'u'}], True),
+        'upgrade-drop': ([{'op': 'upgrade', 'w': 'wa'}], True),
+        'wclone-wdrop': ([{'op': 'wclone', 'w': 'wa', 'as': 'w3'}, {'op': 'wdrop', 'w': 'w3'}], True),
+        'try_unwrap': ([{'op': 'try_unwrap', 'h': 'a', 'as': 'a'}], None),
+        'get_mut': ([{'op': 'get_mut', 'h': 'a'}], True),
+        'make_mut': ([{'op': 'make_mut', 'h': 'a'}], True),
+        'raw-roundtrip': ([{'op': 'into_raw', 'h': 'a', 'as': 'r'}, {'op': 'from_raw', 'r': 'r', 'as': 'a'}], True),
+        'inc-dec': ([{'op': 'as_ptr', 'h': 'a', 'as': 'p'}, {'op': 'inc_strong', 'r': 'p'}, {'op': 'strong_count', 'h': 'a'}, {'op': 'dec_strong', 'r': 'p'}], True),
+        'weak-raw': ([{'op': 'w_into_raw', 'w': 'wa', 'as': 'wr'}, {'op': 'w_from_raw', 'r': 'wr', 'as': 'wa'}], True),
+        'ptr_eq': ([{'op': 'clone', 'h': 'a', 'as': 'pe'}, {'op': 'ptr_eq', 'a': 'a', 'b': 'pe'}, {'op': 'drop', 'h': 'pe'}], True),
+        'deref': ([{'op': 'deref', 'h': 'a'}], True),
+    }
+    L = 2 if tier == 'quick' else 3
+    names = sorted(calls)
+    for bn, base in bases.items():
+        seqs = [(c,) for c in names] + [(c1, c2) for c1 in names for c2 in names]
+        if L >= 3:
+            rnd = random.Random(99 + seed)
+            seqs += [tuple(rnd.choice(names) for _ in range(3)) for _ in range(400)]
+        for seq in seqs:
+            ops = list(base)
+            held = True
+            ok = True
+            used = set()
+            for ci, c in enumerate(seq):
+                co, still = calls[c]
+                if not held or ('drop_extra' == c and bn in ('leaking-cycle', 'unique')) or (bn == 'unique' and c in ('weak-raw',)):
+                    ok = False
+                    break
+                # rename auxiliary handles so that repeated calls do not clash
+                ren = []
+                for o in co:
+                    o = dict(o)
+                    for key in ('as', 'h', 'w', 'r', 'b', 'v'):
+                        if key in o and o[key] in ('c', 'w2', 'u', 'w3', 'r', 'p', 'wr', 'pe') :
+                            o[key] = '%s_%d' % (o[key], ci)
+                    ren.append(o)
+                ops += ren
+                if still is False:
+                    held = False
+                elif still is None:
+                    # try_unwrap: `a` is now either the same handle (Err) or a value (Ok); stop calling methods on it
+                    held = False
+                    ops += wobs
+                    ops.append({'op': 'drop_any', 'h': 'a'})
+                if held:
+                    ops += obs
+                ops += wobs
+            if not ok:
+                continue
+            # end of program: everything the program still holds is released, in a fixed order
+            ops.append({'op': 'note'})
+            items.append(dict(prop='C07', name='%s: %s' % (bn, ' ; '.join(seq)), script={'ops': ops}, sym=True, oracles=set(),
+                              opts={'panics_ok': True, 'abort_ok': True}, layouts=[None], post_path=_c07_post_path, accept_props=['C07']))
+    return items
+
+
+def replay_C07(P, native, rep, scratch):
+    """confirm a disagreement against the real std::rc::Rc: the same concrete script on both native runners"""
+    import runcheck, scripts as scr, subprocess, os
+    cs = runcheck.concretise(rep['script'], rep['model'])
+    for op in cs['ops']:
+        if op['op'] in ('extras', 'wextras') and op['n'] > 100000:
+            return False, 'counterexample needs %d handles' % op['n'], cs
+    env = dict(os.environ)
+    env.update(RUSTUP_TOOLCHAIN='nightly', CARGO_NET_OFFLINE='true', CARGO_TARGET_DIR=os.path.join(runcheck.VERIF, 'out', 'native-target-std'))
+    r = subprocess.run(['cargo', 'build', '--offline', '--quiet', '--features', 'stdrc'], cwd=os.path.join(runcheck.VERIF, 'native'), env=env, capture_output=True, text=True)
+    if r.returncode != 0:
+        return False, 'std runner build failed', cs
+    stdbin = os.path.join(env['CARGO_TARGET_DIR'], 'debug', 'vrunner')
+    path = os.path.join(scratch, 'c07.txt')
+    open(path, 'w').write(scr.to_text(cs, 'replay'))
+    a = subprocess.run([native.bin, path, '0'], capture_output=True, text=True, timeout=60)
+    b = subprocess.run([stdbin, path, '0'], capture_output=True, text=True, timeout=60)
+    ta = scr.normalise(scr.parse_native(a.stdout).get('replay', {}).get('trace', []))
+    tb = scr.normalise(scr.parse_native(b.stdout).get('replay', {}).get('trace', []))
+    if ta != tb or a.returncode != b.returncode:
+        d = next((('cactusref %r / std %r' % (x, y)) for x, y in zip(ta + [None] * 50, tb + [None] * 50) if x != y), 'exit status %s vs %s' % (a.returncode, b.returncode))
+        return True, 'native: the same program gives different observations on cactusref and on std::rc::Rc: ' + d, cs
+    return False, 'native: cactusref and std::rc::Rc agree on this program', cs
+
+
+PROPS['C07'] = dict(items=items_C07, custom_replay=replay_C07,
+                    bounds={'quick': {'states': '4 base states without adoption (one object with symbolic extra strong/Weak handles; owner holding a target that holds a Weak back; a leaking two-cycle; a unique handle with Weak::new)', 'programs': 'every sequence of <=2 calls out of 16 (clone, drop, downgrade, upgrade, Weak clone/drop, try_unwrap, get_mut, make_mut, raw round trips, increment/decrement_strong_count, ptr_eq, deref), counts observed through Rc and Weak after every call', 'oracle': 'reference model of std::rc written from the std documentation, run under each path condition; z3 decides equality of every returned count and forks the model where the path condition leaves a std decision open'},
+                            'thorough': {'programs': 'plus 400 seeded sequences of 3 calls per base state'}},
+                    outside=OUTSIDE + ['comparison / hashing / formatting / From impls (delegation only, not modelled)', 'counter values within 64 of usize::MAX (cactusref aborts one step earlier than std)', 'unsized coercions, downcast, Pin'],
+                    vacuity=lambda results, extra: None if sum(r.get('extra', {}).get('std_branches', 0) for r in results) > 0 else 'the std model was never compared',
+                    replay_oracles=[])
